@@ -361,6 +361,41 @@ def check_fused(rec, rng, allkw):
                                                 toks][:4]), key='fused' + w)
 
 
+PHRASES = ['LEFT OUTER JOIN', 'RIGHT OUTER JOIN', 'FULL OUTER JOIN',
+           'LEFT JOIN', 'INNER JOIN', 'CROSS JOIN', 'NATURAL JOIN',
+           'LEFT INNER JOIN', 'STRAIGHT JOIN', 'END IF', 'END LOOP',
+           'END WHILE', 'NOT NULL', 'ASC NULLS FIRST', 'DESC NULLS LAST',
+           'NULLS FIRST', 'NULLS LAST', 'UNION ALL', 'CREATE OR REPLACE',
+           'DOUBLE PRECISION', 'GROUP BY', 'ORDER BY', 'PRIMARY KEY',
+           'HANDLER FOR', 'NOT LIKE', 'NOT ILIKE', 'NOT RLIKE', 'NOT REGEXP',
+           'LATERAL VIEW EXPLODE', 'LATERAL VIEW INLINE', 'GO 2']
+
+
+def check_phrases(rec, rng):
+    """A multi-word keyword with one inner blank removed is not that
+    keyword: the text must not come back as one token."""
+    for ph in PHRASES:
+        words = ph.split()
+        for cut in range(len(words) - 1):
+            fused = ' '.join(words[:cut]) + (' ' if cut else '') \
+                + words[cut] + words[cut + 1] \
+                + (' ' if cut + 2 < len(words) else '') \
+                + ' '.join(words[cut + 2:])
+            spelled = rng.choice([fused, fused.lower()])
+            for L, R in ((' ', ' '), ('', ''), ('(', ')')):
+                text = L + spelled + R
+                rec.case()
+                rec.monitor('non_keyword_is_name')
+                toks = list(lexer.tokenize(text))
+                if any(v == spelled and tt is not T.Name for tt, v in toks):
+                    rec.violation('fused-phrase', {'text': text,
+                                                   'word': spelled, 'L': L,
+                                                   'R': R, 'want': 'split'},
+                                  '%r (the keyword %r with a blank removed) '
+                                  'is lexed as one token' % (spelled, ph),
+                                  key='phrase' + ph)
+
+
 def check_nonword(rec, rng, allkw):
     for _ in range(50):
         w = rng.choice('abcdefghijklmnopqrstuvwxyzÄé_') + ''.join(
@@ -404,6 +439,7 @@ def shard(ctx):
     allkw = {w for w, _ in table}
     if ctx.shard % 4 == 0:
         check_fused(rec, rng, allkw)
+        check_phrases(rec, rng)
     n = 0
     while ctx.running():
         n += 1
